@@ -102,7 +102,7 @@ def gen_program(rnd):
 
 def main():
     tier = common.tier()
-    nshards, nprogs = (16, 300) if tier == "quick" else (32, 3000)
+    nshards, nprogs = (16, 300) if tier == "quick" else (32, 8000)
     jobs = [dict(seed="%d/%s/%d" % (common.seed(), PROP, s), nprogs=nprogs) for s in range(nshards)]
     R = common.Run(PROP, "exploration", RULE)
     for job, res, err in shard.run_jobs("vf.checks.C15", "worker", jobs, timeout=3600, nproc=16):
